@@ -471,3 +471,150 @@ def pointer_byte_range(chk, repo, rid, fqual, what, key_suffix='::byte-range', d
             ok = len(decs) >= 1
             det += '' if ok else '; the bytes read are not decoded'
     chk.ob(rid, f"{what} seeks to start and reads end - start bytes", lf.where, ok, f"{what}: {det}", key=lf.qual + key_suffix, fn=lf.qual)
+
+
+# ----------------------------------------------------------------------------- slicing a sequence that carries coordinates
+def coord_slice(chk, repo, rid, quals, floor=None):
+    """`seq[start:stop]` of a record with matched locations keeps, for every location [lhs, rhs) that overlaps the slice, exactly
+    the intersection: query = [max(lhs, start) - start, min(rhs, stop) - start), ref shifted by max(lhs, start) - lhs; locations
+    outside the slice are dropped.  The two MatchedLocation operations used are first checked against their own bodies
+    (slice: query [0, b - a), ref [R + a, R + b); shift(i): query + i, ref unchanged), then every path through one iteration of
+    the location loop is interpreted over (query.start, query.end, ref.start) as affine forms and compared, case by case
+    (the path's own comparisons lhs <= start / rhs <= stop select the case), with the definitional intersection."""
+    from sa import sem
+    from sa.cfg import CFG, iteration_paths
+    from sa.affine import simple_aff, Aff
+    chk.rule(rid, 'R-AFFINE-EQV: slicing a record with coordinates keeps the intersection of every overlapped location, shifted to the slice origin', floor if floor is not None else 6 * len(quals) + 2)
+    # ---- models of MatchedLocation.__getitem__ / shift, verified on their bodies
+    gi = repo.func('SeqFeature:MatchedLocation.__getitem__')
+    sh = repo.func('SeqFeature:MatchedLocation.shift')
+    chk.uses(gi, sh)
+
+    def ctor_kwargs(fn, which):
+        out = {}
+        for st in ast.walk(fn.node):
+            if isinstance(st, ast.Assign) and len(st.targets) == 1 and isinstance(st.targets[0], ast.Name) and st.targets[0].id == which and isinstance(st.value, ast.Call):
+                out = {k.arg: unparse(k.value).replace(' ', '') for k in st.value.keywords if k.arg in ('start', 'end')}
+        return out
+    q_, r_ = ctor_kwargs(gi, 'query'), ctor_kwargs(gi, 'ref')
+    idx = any(isinstance(st, ast.Assign) and unparse(st.value) == 'index.indices(len(self))' and unparse(st.targets[0]).replace(' ', '').startswith('(start,stop,')
+              for st in ast.walk(gi.node))
+    ok_gi = idx and q_ == {'start': '0', 'end': 'stop-start'} and r_ == {'start': 'self.ref.start+start', 'end': 'self.ref.start+stop'}
+    chk.ob(rid, 'model: location[a:b] has query [0, b - a) and ref [ref.start + a, ref.start + b)', gi.where, ok_gi,
+           f"MatchedLocation.__getitem__ builds query {q_} / ref {r_}", key=gi.qual + '::model', fn=gi.qual)
+    qs = ctor_kwargs(sh, 'query')
+    ret_ref = any(isinstance(n, ast.Return) and isinstance(n.value, ast.Call) and kwarg(n.value, 'ref') is not None and unparse(kwarg(n.value, 'ref')) == 'self.ref'
+                  for n in ast.walk(sh.node))
+    ok_sh = qs == {'start': 'self.query.start+i', 'end': 'self.query.end+i'} and ret_ref
+    chk.ob(rid, 'model: location.shift(i) moves the query by i and keeps the ref', sh.where, ok_sh, f"MatchedLocation.shift builds query {qs}, ref kept: {ret_ref}",
+           key=sh.qual + '::model', fn=sh.qual)
+    LHS, RHS, R, START, STOP = (Aff.sym(x) for x in ('lhs', 'rhs', 'R', 'start', 'stop'))
+    for q in quals:
+        f = repo.func(q)
+        chk.uses(f)
+        loops_ = [l for l in walk_no_nested(f.node) if isinstance(l, ast.For) and unparse(l.iter) == 'self.locations' and isinstance(l.target, ast.Name)]
+        if len(loops_) != 1:
+            chk.undecided(rid, f"{f.qual}: location loop", f.where, 'the loop over self.locations was not found', key=q + '::loop', fn=f.qual)
+            continue
+        lp = loops_[0]
+        L = lp.target.id
+        # start / stop come from index.indices(len(self))
+        src = [st for st in walk_no_nested(f.node) if isinstance(st, ast.Assign) and unparse(st.value) == 'index.indices(len(self))']
+        ok_src = len(src) == 1 and unparse(src[0].targets[0]).replace(' ', '').startswith('(start,stop,')
+        cfg = CFG(f.node)
+        ps = iteration_paths(cfg, lp, max_paths=2000)
+        chk.paths += len(ps)
+        cases = {}
+        problems = []
+        outs = [c for c in G_find_calls(lp, 'append')]
+        out_list = unparse(outs[0].func.value) if len(outs) == 1 else None
+        for p in ps:
+            env = {L: (LHS, RHS, R)}
+            names = {}
+            appended = None
+
+            def val(e):
+                if isinstance(e, ast.Name) and e.id in env:
+                    return env[e.id]
+                if isinstance(e, ast.Subscript) and isinstance(e.slice, ast.Slice) and e.slice.step is None:
+                    b = val(e.value)
+                    if b is None:
+                        return None
+                    a_ = simple_aff(e.slice.lower, names) if e.slice.lower is not None else Aff(0)
+                    b_ = simple_aff(e.slice.upper, names) if e.slice.upper is not None else (b[1] - b[0])
+                    if a_ is None or b_ is None:
+                        return None
+                    return (Aff(0), b_ - a_, b[2] + a_)
+                if isinstance(e, ast.Call) and isinstance(e.func, ast.Attribute) and e.func.attr == 'shift' and len(e.args) == 1:
+                    b = val(e.func.value)
+                    i_ = simple_aff(e.args[0], names)
+                    if b is None or i_ is None:
+                        return None
+                    return (b[0] + i_, b[1] + i_, b[2])
+                return None
+            bad = False
+            for nd in p.nodes():
+                a = nd.ast
+                if nd.kind != 'stmt':
+                    continue
+                if isinstance(a, ast.Assign) and len(a.targets) == 1 and isinstance(a.targets[0], ast.Name):
+                    t = a.targets[0].id
+                    vt = unparse(a.value)
+                    if vt == f'{L}.query.start' and env.get(L) == (LHS, RHS, R):
+                        names[t] = LHS
+                    elif vt == f'{L}.query.end' and env.get(L) == (LHS, RHS, R):
+                        names[t] = RHS
+                    else:
+                        v = val(a.value)
+                        if v is not None:
+                            env[t] = v
+                        else:
+                            av = simple_aff(a.value, names)
+                            if av is not None and not any(isinstance(x, ast.Name) and x.id in env for x in ast.walk(a.value)):
+                                names[t] = av
+                            elif any(isinstance(x, ast.Name) and x.id in env for x in ast.walk(a.value)):
+                                bad = True
+                elif isinstance(a, ast.Expr) and isinstance(a.value, ast.Call) and call_name(a.value) == 'append' and out_list and unparse(a.value.func.value) == out_list:
+                    appended = val(a.value.args[0]) if a.value.args else None
+                    if appended is None:
+                        bad = True
+            # which case does the path belong to (its own comparisons, as affine facts over lhs / rhs / start / stop)
+            def known(text):
+                return p.facts.known(ast.parse(text, mode='eval').body)
+            nm = {v: k for k, v in names.items() if v in (LHS, RHS)}
+            l_n, r_n = nm.get(LHS), nm.get(RHS)
+            if l_n is None or r_n is None:
+                problems.append('the query bounds of the location are not read')
+                continue
+            before, after = known(f'{r_n} <= start'), known(f'{l_n} >= stop')
+            cl, cr = known(f'{l_n} <= start'), known(f'{r_n} <= stop')
+            broke = any(nd.kind == 'stmt' and isinstance(nd.ast, ast.Break) for nd in p.nodes())
+            if appended is None and not bad:
+                # the location is dropped (continue / fall through) or the scan is abandoned (break)
+                if not (before is True or after is True):
+                    problems.append(f"a location is dropped although it is not known to lie outside the slice ({'break' if broke else p.end_kind()})")
+                elif broke and after is not True:
+                    problems.append('the scan is abandoned at a location that is not behind the slice')
+                continue
+            if bad or appended is None:
+                problems.append('a path builds the kept location in a way that is not understood')
+                continue
+            if before is not False or after is not False or cl is None or cr is None:
+                problems.append(f"a location is kept without the overlap tests being decided on the path ({before}, {after}, {cl}, {cr})")
+                continue
+            want = (Aff(0) if cl else LHS - START, (RHS - START) if cr else (STOP - START), (R + START - LHS) if cl else R)
+            cases[(cl, cr)] = appended == want
+            if appended != want:
+                problems.append(f"case lhs<=start:{cl}, rhs<=stop:{cr}: kept location has query [{appended[0]!r}, {appended[1]!r}) ref.start {appended[2]!r}, "
+                                f"the intersection is query [{want[0]!r}, {want[1]!r}) ref.start {want[2]!r}")
+        chk.ob(rid, f"{f.qual}: slice bounds come from index.indices(len(self))", f.where, ok_src, 'start / stop are not the normalised slice bounds', key=q + '::bounds', fn=f.qual)
+        for c_ in ((True, True), (True, False), (False, True), (False, False)):
+            chk.ob(rid, f"{f.qual}: location overlapping the slice with lhs<=start:{c_[0]}, rhs<=stop:{c_[1]} keeps the intersection", repo.loc(f, lp),
+                   cases.get(c_) is True, '; '.join(problems[:2]) or f"no path covers the case {c_}", key=q + f'::case::{int(c_[0])}{int(c_[1])}', fn=f.qual)
+        chk.ob(rid, f"{f.qual}: locations are dropped only outside the slice; every path understood", repo.loc(f, lp), not problems, '; '.join(problems[:3]),
+               key=q + '::paths', fn=f.qual)
+
+
+def G_find_calls(node, name):
+    from sa import guards as G
+    return G.find_calls(node, name)
